@@ -743,7 +743,7 @@ pub fn check_hist(prop: &str, thorough: bool) -> i32 {
         thorough,
         worker_cmd: "hist-worker",
         total: runs_for(prop, thorough),
-        level: "exploration",
+        level: if prop == "C11" { "fault_enumeration" } else { "exploration" },
         rule: "one evaluation = one seeded single-client history of public API calls generated online against the real model (about half of the runs with ghost lock faults), checked after every call; a history counts as distinct and non-trivial if its sequence of (call, canonical result) is new, it has >= 5 successful calls and reaches >= 3 distinct model states",
         assumptions: vec![
             "lock-only neighbours (ghosts) never change state and hold only locks that existed before the current call started".into(),
